@@ -108,6 +108,11 @@ impl Server {
         &self.database
     }
 
+    #[cfg(iwe_verif)]
+    pub fn verif_database(&self) -> &Database {
+        &self.database
+    }
+
     pub fn handle_did_save_text_document(&mut self, params: DidSaveTextDocumentParams) {
         params.text.map(|text| {
             self.database.update_document(
